@@ -1477,7 +1477,10 @@ impl Engine for ChanInline {
             _ => 30,
         };
         let retry_storm = ch.chance(1, if focus == 8 { 5 } else { 12 });
-        let fault_budget = if retry_storm { 45 } else { fault_budget };
+        // (a storm of 45 failures runs several batches out of their retries; one of 200 also tells a bounded number of
+        // attempts from an unbounded one: the rule is "at most 64 attempts", and only a batch that can fail more often
+        // than that can break it)
+        let fault_budget = if retry_storm { *ch.pick(&[45u32, 45, 200]) } else { fault_budget };
         let teardown = ch.chance(1, 12);
         let reading_cost = ch.chance(1, 3);
         let early_drop = ch.chance(1, 6);
